@@ -12,8 +12,8 @@ import time
 import traceback
 
 HERE = os.path.dirname(os.path.abspath(__file__))
-EVIDENCE_DIR = os.path.join(HERE, "evidence")
-REPLAY_DIR = os.path.join(HERE, "replays")
+EVIDENCE_DIR = os.environ.get("VERIF_EVIDENCE_DIR") or os.path.join(HERE, "evidence")
+REPLAY_DIR = os.environ.get("VERIF_REPLAY_DIR") or os.path.join(HERE, "replays")
 KNOWN_FILE = os.path.join(HERE, "KNOWN_FINDINGS.txt")
 MAX_SAMPLES = 8
 MAX_FAILURES_KEPT = 2000
